@@ -611,7 +611,7 @@ func genLost(o *hx.Opts, idx *int) []In {
 		in.DwellUs = []int{0, 20, 200}[r.Intn(3)]
 		in.HDwellUs = []int{0, 5, 50}[r.Intn(3)]
 		// the calls: call 0 = A's (gone); then 0..P-1 updates of the bystanders
-		genCalls(r, &in, 1) // one call per plugin, u = plugin
+		genCalls(r, &in, 1)       // one call per plugin, u = plugin
 		for i := range in.Calls { // non-empty lists only: the token identifies the call
 			if len(in.Calls[i].List) == 0 {
 				up := genUpdate(r, fmt.Sprintf("u%d-0", in.Calls[i].U))
